@@ -27,7 +27,7 @@ def scan_runs(ctx, n):
         d = ctx.sub(f'scan-{i}')
         out = os.path.join(d, 'trace.ndjson')
         args = [ctx.kvh(), 'scan-concurrent', '-dir', os.path.join(d, 'db'), '-out', out, '-seed', str(ctx.seed * 1000 + i),
-                '-n', str(10 + i % 8), '-mem', str([150, 400, 1 << 20][i % 3])] + (['-range'] if i % 2 else [])
+                '-n', str(10 + i % 8), '-mem', str([150, 400, 1 << 20][i % 3])] + (['-range'] if i % 2 else []) + (['-seeks'] if (i // 2) % 2 else [])
         p = subprocess.run(args, capture_output=True, text=True, timeout=120)
         ev = read_ndjson(out) if os.path.exists(out) else [{'e': 'reset', 'n': 0, 'stable': []}]
         if p.returncode != 0:
@@ -73,7 +73,7 @@ def check_C05(ctx):
                 ctx.violations.append({'what': f"{bd}: {mm['op']} at step {mm['step']}: expected {mm['exp']}, got {mm['got']} {mm.get('msg', '')}",
                                        'replay': path})
     # running scans
-    runs = scan_runs(ctx, 12 if ctx.quick() else 120)
+    runs = scan_runs(ctx, 24 if ctx.quick() else 400)
     traces = [r[0] for r in runs]
     ctx.traces += len(traces)
     for i in validate_batch(ctx, 'TRACE_Scan', 'TRACE_Scan.cfg', traces, 'scan')[:3]:
